@@ -171,7 +171,7 @@ fn tracked_remove_family_leakcheck() {
     kani::assume(c <= N);
     kani::cover!(which == 0 && pre.has(k), "tracked remove: hit");
     kani::cover!(which == 1 && pre.n > 0, "tracked remove_lru");
-    kani::cover!(which == 2 && pre.n >= 2, "tracked purge");
+    kani::cover!(which == 2 && pre.n >= 1, "tracked purge");
     kani::cover!(which == 3 && c < pre.n, "tracked resize: shrink");
     match which {
         0 => drop(l.remove(&Tk(k))),
@@ -202,7 +202,7 @@ fn tracked_reads_then_drop_leakcheck() {
     let created = mask_of(&pre);
     let k: u8 = kani::any();
     kani::assume(k < 4);
-    kani::cover!(pre.n >= 2, "tracked drop: several entries");
+    kani::cover!(pre.n >= 1, "tracked drop: populated");
     {
         let probe = Tk(k);
         let _ = l.get(&probe);
